@@ -54,7 +54,8 @@ func TestVerifC10Sweep(t *testing.T) {
 		cids = append(cids, cid.NewCidV1(cid.Raw, mh), cid.NewCidV0(mh))
 	}
 	addrSets := [][][]byte{nil, {}, {{}}, {{4, 127, 0, 0, 1, 6, 0x1f, 0x90}}, {{1}, {2, 3}, {}}, {bytes.Repeat([]byte{7}, 300)}}
-	extras := [][]byte{nil, {}, {0}, bytes.Repeat([]byte{0xab}, 100)}
+	// extra data sizes around the generic cbor-gen limit (8192) as well: byte strings may be longer than that
+	extras := [][]byte{nil, {}, {0}, bytes.Repeat([]byte{0xab}, 100), bytes.Repeat([]byte{1}, 8191), bytes.Repeat([]byte{2}, 8192), bytes.Repeat([]byte{3}, 8193), bytes.Repeat([]byte{4}, 70000)}
 	origs := []string{"", "12D3KooWHf7cahZvAVB36SGaVXc7fiVDoJdRJq42zDRcN2s2512h", "x"}
 	cases := 0
 	var encodings [][]byte
